@@ -430,3 +430,93 @@ func reachConsistent(fn *ssa.Function, from ssa.Instruction, target, avoid func(
 	}
 	return found
 }
+
+// helperReach: fn, its closures, and the module functions of the same package it statically calls (transitively up to
+// depth): where a maintainer may have moved part of fn's body by extracting a helper.
+func helperReach(fn *ssa.Function, depth int) []*ssa.Function {
+	seen := map[*ssa.Function]bool{}
+	var out []*ssa.Function
+	var add func(f *ssa.Function, d int)
+	add = func(f *ssa.Function, d int) {
+		if f == nil || seen[f] || f.Blocks == nil {
+			return
+		}
+		seen[f] = true
+		out = append(out, f)
+		for _, a := range f.AnonFuncs {
+			add(a, d)
+		}
+		if d == 0 {
+			return
+		}
+		for _, call := range core.Calls(f) {
+			cal := core.StaticCallee(call)
+			if cal == nil || cal.Pkg == nil || fn.Pkg == nil || cal.Pkg != fn.Pkg {
+				continue
+			}
+			add(cal, d-1)
+		}
+	}
+	add(fn, depth)
+	return out
+}
+
+// nowPlus: v is `time.Now().Add(d)`; returns d.
+func nowPlus(v ssa.Value) (ssa.Value, bool) {
+	add, ok := v.(*ssa.Call)
+	if !ok || core.CallName(add) != "(time.Time).Add" || len(add.Call.Args) != 2 {
+		return nil, false
+	}
+	now, ok := add.Call.Args[0].(*ssa.Call)
+	if !ok || core.CallName(now) != "time.Now" {
+		return nil, false
+	}
+	return add.Call.Args[1], true
+}
+
+// valueLeaves: what a value can be, followed through phis, local variables and the results of module functions
+// (helpers): "const:<n>", "field:<Struct.field>", "param:<name>", or the rendered expression of anything else.
+func valueLeaves(c *core.Ctx, v ssa.Value) []string {
+	var out []string
+	seenFn := map[*ssa.Function]bool{}
+	var through func(cc *ssa.Call, idx int) []ssa.Value
+	through = func(cc *ssa.Call, idx int) []ssa.Value {
+		f := core.StaticCallee(cc)
+		if f == nil || f.Pkg == nil || !core.IsModule(f.Pkg.Pkg) || f.Blocks == nil || seenFn[f] {
+			return nil
+		}
+		seenFn[f] = true
+		var vs []ssa.Value
+		for _, ret := range returnsOf(f) {
+			rs := core.ReturnResults(ret)
+			if idx < len(rs) {
+				vs = append(vs, rs[idx])
+			}
+		}
+		return vs
+	}
+	for _, o := range core.Origins(v, core.OriginOpts{ThroughCall: through}) {
+		switch x := o.(type) {
+		case *ssa.Const:
+			if k, ok := core.ConstInt(x); ok {
+				out = append(out, fmt.Sprintf("const:%d", k))
+			} else {
+				out = append(out, "const:"+x.String())
+			}
+		case *ssa.Parameter:
+			out = append(out, "param:"+x.Name())
+		case *ssa.UnOp:
+			if fa, ok := x.X.(*ssa.FieldAddr); ok && x.Op == token.MUL {
+				out = append(out, "field:"+core.FieldAddrRef(fa).String())
+			} else {
+				out = append(out, core.Expr(o))
+			}
+		case *ssa.Field:
+			out = append(out, "field:"+core.FieldValRef(x).String())
+		default:
+			out = append(out, core.Expr(o))
+		}
+	}
+	sort.Strings(out)
+	return dedup(out)
+}
